@@ -2,6 +2,7 @@
 # Build the whole development from files on disk only (offline).
 set -e
 here=$(cd "$(dirname "$0")" && pwd)
+"$here/tools/gen_coqproject.sh"
 cd "$here/coq"
 coq_makefile -f _CoqProject -o Makefile >/dev/null
 timeout 3000 make -j16 > "$here/coq/build.log" 2>&1 || { tail -40 "$here/coq/build.log"; exit 1; }
